@@ -91,7 +91,9 @@ def w_parts(tier):
         parts.append(Part(H, "W", {"n": 2, "u": "ax_k", "op": op, "p": p, "q": q, "base": "a"}, 600, 60, ob + " (through the handle r['a'])", weight=2))
     if tier == "quick":
         for op in ("create_group", "setitem", "delitem", "attr_set", "require_group"):
-            for p in ("a", "a/x", "b/c"):
+            # ("a/x/q": two missing segments below a node deleted in an OLDER patch - implicit ancestors must be
+            #  explicit overwrite groups; seeding round 5)
+            for p in ("a", "a/x", "b/c", "a/x/q"):
                 parts.append(Part(H, "W", {"n": 3, "u": "ax", "op": op, "p": p}, 600, 60, ob, weight=3))
     return parts
 
